@@ -292,7 +292,8 @@ func (c *pdClient) BatchScanRegions(ctx context.Context, keyRanges []router.KeyR
 	var lastRegion *router.Region
 	for _, keyRange := range keyRanges {
 		if lastRegion != nil && lastRegion.Meta != nil {
-			if lastRegion.Meta.EndKey == nil || bytes.Compare(lastRegion.Meta.EndKey, keyRange.EndKey) >= 0 {
+			// an empty end key of the requested range means +inf: only a region reaching +inf covers it
+			if len(lastRegion.Meta.EndKey) == 0 || (len(keyRange.EndKey) > 0 && bytes.Compare(lastRegion.Meta.EndKey, keyRange.EndKey) >= 0) {
 				continue
 			}
 			if bytes.Compare(lastRegion.Meta.EndKey, keyRange.StartKey) > 0 {
